@@ -30,14 +30,16 @@ type xpair struct {
 	Metric bool
 	// SQLBreaks: the "SQL" formulation also has a breakpoint, at a different split point
 	SQLBreaks bool
+	// note: `| json != "x"` / `| json !~ "x"` are parsed by logql_parser as a label filter on a label called json; the in-process
+	// formulations therefore put a label filter that holds for every stream between the parser and the line filter
 }
 
 func xpairs() []xpair {
 	ps := []xpair{
 		{ID: "lf_has", Family: "linefilter", SQL: `%s |= "NEEDLE" | json x="x"`, InProc: `%s | json |= "NEEDLE"`, Keys: []string{"a", "s", "x"}},
-		{ID: "lf_not", Family: "linefilter", SQL: `%s != "NEEDLE" | json x="x"`, InProc: `%s | json != "NEEDLE"`, Keys: []string{"a", "s", "x"}},
+		{ID: "lf_not", Family: "linefilter", SQL: `%s != "NEEDLE" | json x="x"`, InProc: `%s | json | s=~".+" != "NEEDLE"`, Keys: []string{"a", "s", "x"}},
 		{ID: "lf_re", Family: "linefilter", SQL: `%s |~ "NEE+DLE" | json x="x"`, InProc: `%s | json |~ "NEE+DLE"`, Keys: []string{"a", "s", "x"}},
-		{ID: "lf_nre", Family: "linefilter", SQL: `%s !~ "NEE+DLE" | json x="x"`, InProc: `%s | json !~ "NEE+DLE"`, Keys: []string{"a", "s", "x"}},
+		{ID: "lf_nre", Family: "linefilter", SQL: `%s !~ "NEE+DLE" | json x="x"`, InProc: `%s | json | s=~".+" !~ "NEE+DLE"`, Keys: []string{"a", "s", "x"}},
 		{ID: "split_lf", Family: "split", SQL: `%s |= "NEEDLE" | json`, InProc: `%s | json |= "NEEDLE"`, SQLBreaks: true},
 		{ID: "split_label", Family: "split", SQL: `%s | s="1" | json`, InProc: `%s | json | s="1"`, SQLBreaks: true},
 		{ID: "drop", Family: "drop", SQL: `%s | json x="x", y="y" | drop x`, InProc: `%s | json | drop x`, Keys: []string{"a", "s", "x", "y"}},
@@ -60,7 +62,7 @@ func xpairs() []xpair {
 		xpair{ID: "v_bytes_by", Family: "vector-agg", Metric: true, SQL: `sum by (s) (bytes_over_time(%s | json x="x" [10s]))`, InProc: `sum by (s) (bytes_over_time(%s | json [10s]))`},
 		xpair{ID: "v_max_by", Family: "vector-agg", Metric: true, SQL: `max by (s) (count_over_time(%s | json x="x" [10s]))`, InProc: `max by (s) (count_over_time(%s | json | drop y, m, n_y, f, x_k [10s]))`},
 		xpair{ID: "v_without", Family: "vector-agg", Metric: true, SQL: `sum without (x) (count_over_time(%s | json x="x" [10s]))`, InProc: `sum without (x, y, m, n_y, f, x_k) (count_over_time(%s | json [10s]))`},
-		xpair{ID: "v_nogrp", Family: "vector-agg-nogroup", Metric: true, SQL: `sum(count_over_time(%s | json x="x" [10s]))`, InProc: `sum(count_over_time(%s | json [10s]))`},
+		xpair{ID: "v_nogrp", Family: "vector-agg-nogroup", Metric: true, SQL: `sum(count_over_time(%s | json x="x" [10s]))`, InProc: `sum(count_over_time(%s | json | drop y, m, n_y, f, x_k [10s]))`},
 		xpair{ID: "cmp", Family: "comparison", Metric: true, SQL: `sum by (s) (count_over_time(%s | json x="x" [10s])) > 1`, InProc: `sum by (s) (count_over_time(%s | json [10s])) > 1`},
 		xpair{ID: "cmp_lra", Family: "comparison", Metric: true, SQL: `count_over_time(%s | json x="x" | drop x [10s]) > 1`, InProc: `count_over_time(%s | json | drop x, y, m, n_y, f, x_k [10s]) > 1`},
 	)
@@ -92,7 +94,9 @@ type storedEntry struct {
 }
 
 type XDisagreement struct {
-	Signature   string        `json:"signature"`
+	Kind        string        `json:"kind"`
+	Metric      bool          `json:"metric"`
+	Family      string        `json:"family"`
 	Pair        string        `json:"pair"`
 	Dataset     string        `json:"dataset"`
 	Limit       string        `json:"limit"`
@@ -357,13 +361,9 @@ func crossMain(fs *flag.FlagSet, args []string) error {
 						continue
 					}
 					o.PairsDiffer++
-					limClass := "limited"
-					if lim == "absent" || lim == "0" {
-						limClass = "nolimit"
-					}
 					d := XDisagreement{
-						Signature: fmt.Sprintf("C09/cross/%s/%s/%s/%s", p.Family, ds, limClass, kind),
-						Pair:      p.ID, Dataset: ds, Limit: lim, Direction: dir, SQLQuery: qa, InProcQuery: qb,
+						Kind: kind, Family: p.Family, Metric: p.Metric,
+						Pair: p.ID, Dataset: ds, Limit: lim, Direction: dir, SQLQuery: qa, InProcQuery: qb,
 						SQLShort: ra.short(), InProcShort: rb.short(), Stored: stored[ds], StartNs: startNs, EndNs: endNs,
 					}
 					if len(ra.Body) < 6000 {
@@ -379,4 +379,42 @@ func crossMain(fs *flag.FlagSet, args []string) error {
 	}
 	o.Unsupported = w.Bridge.Unsupported
 	return writeJSON(*out, o)
+}
+
+// e2eProbe (debug): one stored stream {a="p"} with the given lines, one query through the real reader route.
+func e2eProbe(fs *flag.FlagSet, args []string) error {
+	var lines multi
+	q := fs.String("q", `{a="p"} | json`, "query")
+	limit := fs.String("limit", "10", "limit (absent = no parameter)")
+	fs.Var(&lines, "l", "stored line")
+	fs.Parse(args)
+	w, err := e2e.New(e2e.Options{})
+	if err != nil {
+		return err
+	}
+	defer w.Close()
+	const base = int64(1700000000)
+	var vals [][2]string
+	for i, l := range lines {
+		vals = append(vals, [2]string{strconv.FormatInt((base+int64(i)+1)*1e9, 10), l})
+	}
+	raw, _ := json.Marshal(map[string]any{"streams": []any{map[string]any{"stream": map[string]string{"a": "p"}, "values": vals}}})
+	code, resp := w.Push("POST", "/loki/api/v1/push", "application/json", raw, nil)
+	if code != 204 && code != 200 {
+		return fmt.Errorf("push failed: %d %s", code, resp)
+	}
+	for i := 0; i < 50 && w.Store.Counts["samples_v3"] < len(lines); i++ {
+		w.Settle()
+	}
+	v := url.Values{}
+	v.Set("query", *q)
+	v.Set("start", strconv.FormatInt(base*1e9, 10))
+	v.Set("end", strconv.FormatInt((base+30)*1e9, 10))
+	v.Set("step", "10")
+	if *limit != "absent" {
+		v.Set("limit", *limit)
+	}
+	code, body := w.Get("/loki/api/v1/query_range?" + v.Encode())
+	fmt.Fprintf(os.Stderr, "HTTP %d\n%s\n", code, body)
+	return nil
 }
